@@ -1,16 +1,17 @@
 /-
-  XotModel.Lemmas.ScopeFirst — WHICH prefix `prefix_for_namespace` reports: for a real namespace,
-  the first pair `namespaces_in_scope(node)` yields with that namespace (both are one seen-list
-  pass over the same declarations, nearest element first, declaration order within an element).
+  XotModel.Lemmas.ScopeFirst — WHICH prefix `namespace_prefix` / `prefix_for_namespace` reports:
+  for a real namespace, the first pair `namespaces_in_scope(node)` yields with that namespace
+  (and, with `non_empty`, a non-empty prefix): both are one seen-list pass over the same
+  declarations, nearest element first, declaration order within an element.
 -/
 import XotModel.Lemmas.Scope
 
 namespace XotModel
 
-theorem pfnDecls_eq_find (ns : Nat) (hns : ns ≠ Env.noNamespace) (l : List (Nat × Nat)) :
+theorem pfnDecls_eq_find (ns : Nat) (ne : Bool) (hns : ns ≠ Env.noNamespace) (l : List (Nat × Nat)) :
     ∀ (seen1 seen2 : List Nat), (∀ x, x ∈ seen1 ↔ x ∈ seen2) →
-    pfnResult (pfnDecls ns seen1 l) =
-      ((traverseDecls seen2 l).2.find? (fun kv => kv.2 == ns)).map Prod.fst := by
+    pfnResult (pfnDecls ns ne seen1 l) =
+      ((traverseDecls seen2 l).2.find? (fun kv => kv.2 == ns && pfnUsable ne kv.1)).map Prod.fst := by
   induction l with
   | nil => intro s1 s2 _; simp [pfnDecls_nil, traverseDecls_nil, pfnResult]
   | cons d rest ih =>
@@ -25,26 +26,44 @@ theorem pfnDecls_eq_find (ns : Nat) (hns : ns ≠ Env.noNamespace) (l : List (Na
         rw [List.mem_cons, List.mem_append, List.mem_singleton, hs x]
         exact Or.comm
       rw [traverseDecls_cons_new_sc h2]
-      by_cases hv : v = ns
-      · subst hv
-        rw [pfnDecls_cons_hit h rfl]
-        have : ((k == Env.emptyPrefix) && (v == Env.noNamespace)) = false := by
-          have : (v == Env.noNamespace) = false := by simpa using hns
-          simp [this]
-        simp [this, pfnResult]
-      · rw [pfnDecls_cons_miss h hv]
-        have hb : (v == ns) = false := by simpa using hv
+      cases hu : pfnUsable ne k with
+      | false =>
+        rw [pfnDecls_cons_skip h hu]
         split
         · exact ih _ _ hs'
-        · simp only [List.find?_cons, hb]
+        · simp only [List.find?_cons, hu, Bool.and_false]
           exact ih _ _ hs'
+      | true =>
+        by_cases hv : v = ns
+        · subst hv
+          rw [pfnDecls_cons_hit h hu rfl]
+          have : ((k == Env.emptyPrefix) && (v == Env.noNamespace)) = false := by
+            have : (v == Env.noNamespace) = false := by simpa using hns
+            simp [this]
+          simp [this, pfnResult, hu]
+        · rw [pfnDecls_cons_miss h hv]
+          have hb : (v == ns) = false := by simpa using hv
+          split
+          · exact ih _ _ hs'
+          · simp only [List.find?_cons, hb, Bool.false_and]
+            exact ih _ _ hs'
+
+/-- `namespace_prefix(node, ns, non_empty)`, `ns` real = the prefix of the first pair of
+    `namespaces_in_scope(node)` whose namespace is `ns` (and whose prefix is non-empty, with
+    `non_empty`). -/
+theorem namespacePrefixChain_eq_find (chain : List Tree) (ns : Nat) (ne : Bool)
+    (hns : ns ≠ Env.noNamespace) :
+    namespacePrefixChain chain ns ne =
+      ((namespacesInScopeChain chain).find? (fun kv => kv.2 == ns && pfnUsable ne kv.1)).map Prod.fst := by
+  rw [namespacePrefixChain_eq, namespacesInScopeChain_eq]
+  exact pfnDecls_eq_find ns ne hns _ [] [] (fun _ => Iff.rfl)
 
 /-- `prefix_for_namespace(node, ns)`, `ns` real = the prefix of the first pair of
     `namespaces_in_scope(node)` whose namespace is `ns`. -/
 theorem prefixForNamespaceChain_eq_find (chain : List Tree) (ns : Nat) (hns : ns ≠ Env.noNamespace) :
     prefixForNamespaceChain chain ns =
       ((namespacesInScopeChain chain).find? (fun kv => kv.2 == ns)).map Prod.fst := by
-  rw [prefixForNamespaceChain, pfnChain_eq, namespacesInScopeChain_eq]
-  exact pfnDecls_eq_find ns hns _ [] [] (fun _ => Iff.rfl)
+  rw [prefixForNamespaceChain, namespacePrefixChain_eq_find chain ns false hns]
+  simp
 
 end XotModel
